@@ -340,6 +340,36 @@ def Ty.writableFields : List (String × Ty) → Bool
 end
 
 mutual
+/-- least number of bytes a successful decode of `t` consumes -/
+def minBytes : Ty → Nat
+  | .int k _ => k
+  | .f32 => 4 | .f64 => 8
+  | .vec n => 4 * n
+  | .blob | .string | .python => 1
+  | .mailbox => 6
+  | .array e (some n) => n * minBytes e
+  | .array _ none => 1
+  | .fixedDict fs an => if an then min 1 (minBytesFields fs) else minBytesFields fs
+  | .userType t => minBytes t
+def minBytesFields : List (String × Ty) → Nat
+  | [] => 0
+  | (_, t) :: fs => minBytes t + minBytesFields fs
+end
+
+mutual
+/-- every element type of every (nested) array can never decode from zero bytes: the
+element loop of nested slice updates then always makes progress -/
+def Ty.elemsNonEmpty : Ty → Bool
+  | .array e _ => decide (1 ≤ minBytes e) && e.elemsNonEmpty
+  | .fixedDict fs _ => Ty.elemsNonEmptyFields fs
+  | .userType t => t.elemsNonEmpty
+  | _ => true
+def Ty.elemsNonEmptyFields : List (String × Ty) → Bool
+  | [] => true
+  | (_, t) :: fs => t.elemsNonEmpty && Ty.elemsNonEmptyFields fs
+end
+
+mutual
 /-- What a written value reads back as: the reader turns a STRING payload that happens to
 be valid UTF-8 into text, whatever the writer was given. Identity on well-typed values. -/
 def norm : Ty → Val → Val
